@@ -17,7 +17,7 @@ package main
 //     1 and 2 blobs, symlinks, directories, empty directories, directories all of
 //     whose children match some pattern of the alphabet, an empty tree, a tree
 //     with two identical sub-trees at different paths (same tree ID), a snapshot
-//     without summary); quick 7, thorough 13;
+//     without summary, a single file); quick 7, thorough 13;
 //     thorough additionally the family of ALL trees with at most 3 entries over
 //     the names {a, b, A}, depth <= 3 (leaf = file or empty directory)
 //   pattern sets (C20 alphabet): every single pattern of P = {a, /a, a/b, /a/b,
@@ -48,7 +48,11 @@ package main
 //       no entry at all also leaves the snapshot unchanged.  Two-sided: a new
 //       snapshot with the identical tree whose only purpose is an updated
 //       summary (different TotalFilesProcessed/TotalBytesProcessed within the
-//       allowed range, e.g. for the snapshot forged without summary) is accepted;
+//       allowed range, e.g. for the snapshot forged without summary) is accepted.
+//       One corner of this rule fails on the unchanged tree and is reported under
+//       the fixed key C27|include-matches-nothing|root-path-matches|empty-snapshot-saved
+//       (see findings/C27.md): the include list matches no entry but does match
+//       the path "/" of the snapshot root;
 //   (c) otherwise exactly one new snapshot; its tree, read completely from a
 //       fresh repository, contains exactly the kept paths, and every kept node
 //       is byte-identical (JSON) to the old node, the sub-tree reference of
@@ -123,20 +127,20 @@ func verifC27Trees(thorough bool) []verifC27Tree {
 	nosum.NoSummary = true
 	l := []verifC27Tree{
 		verifC27MkTree("T1", "a/b", "a/ab", "a/a/b", "b", "ab/a", "A"),
-		verifC27MkTree("T2", "a", "b/a", "b/b/a", "b/b/b", "A/b", "ab/"),
 		verifC27MkTree("T3", "a/b/a", "a/b/b", "b/a/b", "ab/", "a/A@"),
 		verifC27MkTree("ALLB", "ab/b", "ab/A/b", "A/b/b", "A/b/a", "a@", "b/"),
 		twin,
 		nosum,
 		verifC27MkTree("EMPTY"),
+		verifC27MkTree("T8", "b"),
 	}
 	if thorough {
 		l = append(l,
+			verifC27MkTree("T2", "a", "b/a", "b/b/a", "b/b/b", "A/b", "ab/"),
 			verifC27MkTree("T4", "a", "b", "ab", "A"),
 			verifC27MkTree("T5", "a/a/a", "a/a/b", "a/b/", "A/a/b", "b"),
 			verifC27MkTree("T6", "b/b", "ab/b/a", "A/ab", "a/"),
 			verifC27MkTree("T7", "a/b", "A/A/b", "ab/ab/ab", "A/a@", "ab/b@"),
-			verifC27MkTree("T8", "b"),
 			verifC27MkTree("T9", "a/a/", "a/b/", "b/a/a", "A/a", "A/A/", "ab/ab/"),
 		)
 	}
@@ -651,7 +655,7 @@ func TestVerif_C27(t *testing.T) {
 				if len(kept) > 0 && len(kept) < len(entries) {
 					r.Nontrivial(vid)
 				}
-				verifC27Compare(ctx, r, ck, vid, detail, fx, store.Snapshot(), kept, matching, mode.exclude)
+				verifC27Compare(ctx, r, ck, vid, detail, fx, store.Snapshot(), kept, matching, mode.exclude, verifC27AnyMatch(lists, "/"))
 			}
 		}
 	}
@@ -675,7 +679,7 @@ func verifC27Sorted(m map[string]bool) []string {
 	return l
 }
 
-func verifC27Compare(ctx context.Context, r *vh.Run, ck, vid string, detail map[string]any, fx *verifC27Fixture, after gatebe.State, kept map[string]bool, matching int, exclude bool) {
+func verifC27Compare(ctx context.Context, r *vh.Run, ck, vid string, detail map[string]any, fx *verifC27Fixture, after gatebe.State, kept map[string]bool, matching int, exclude, rootMatches bool) {
 	// (a) old snapshot untouched; new snapshot files
 	oldKey := gatebe.FileKey{Type: backend.SnapshotFile, Name: fx.snapID.String()}
 	if buf, ok := after[oldKey]; !ok || string(buf) != string(fx.state[oldKey]) {
@@ -749,6 +753,15 @@ func verifC27Compare(ctx context.Context, r *vh.Run, ck, vid string, detail map[
 			why := "nothing matches"
 			if !exclude && matching > 0 {
 				why = "everything is selected"
+			}
+			if !exclude && matching == 0 && rootMatches && len(fx.nodes) > 0 {
+				// one root cause, one key (findings/C27.md): the include list selects no entry, but the path "/" of the
+				// snapshot root itself matches the list (e.g. '*' followed by a negation), so KeepEmptyDirectory("/")
+				// keeps the emptied root and an empty snapshot is saved instead of leaving the snapshot unchanged
+				r.Count("include_nothing_root_matches", 1)
+				r.Violationf(ck, "C27|include-matches-nothing|root-path-matches|empty-snapshot-saved", detail,
+					"the include list matches no entry of the snapshot, yet rewrite saved a new snapshot %v with tree %v (old tree %v): the root path \"/\" matches the list (e.g. --include '*' --include '!b' on a snapshot holding only b)", newIDs[0].Str(), sn.Tree.Str(), fx.treeID.Str())
+				return
 			}
 			r.Violationf(ck, "C27|unexpected-new-snapshot|"+vid, detail, "%s, yet rewrite saved a new snapshot %v (tree %v, old tree %v, summary files=%d bytes=%d)", why, newIDs[0].Str(), sn.Tree.Str(), fx.treeID.Str(), gotFiles, gotBytes)
 			return
